@@ -81,6 +81,38 @@ def rearm(ctx: Any) -> List[Ob]:
     from .c06 import pair_per_live_record
 
     obs.extend(pair_per_live_record(ctx, R))
+    # ... and it has to be started, and fed: the chain from the creation of a browser to the first armed timer, and from a
+    # learned pointer to the heap, has no path that skips a link (must-pass-through on each routine of the chain)
+    prog = ctx.prog
+    base = prog.cls('zeroconf._services.browser._ServiceBrowserBase')
+    qs = prog.cls(QS)
+    chain = [
+        (base.methods.get('_async_start'), 'async_add_listener', 'a started browser registers itself as a record listener (with its questions, so that the cache is replayed to it)'),
+        (base.methods.get('_async_start'), '_async_start_query_sender', 'a started browser starts its query sender'),
+        (base.methods.get('_async_start_query_sender'), 'start', 'the query sender starts the scheduler (after the instance has started)'),
+        (qs.methods.get('start'), 'call_later', 'starting the scheduler arms the timer of the first start-up query'),
+        (qs.methods.get('_schedule_ptr_refresh'), '_schedule_ptr_query', 'a refresh computed for a pointer is put on the heap'),
+        (qs.methods.get('schedule_rescue_query'), '_schedule_ptr_query', None),
+        (qs.methods.get('_schedule_ptr_query'), 'heappush', 'a scheduled query is pushed onto the heap'),
+    ]
+    for f, callee, what in chain:
+        if f is None:
+            raise AnalysisError(f'anchor vanished: a routine of the browser start-up chain (the one that calls {callee})')
+        cfg = cfg_of(f.node)
+        hits = [n for n in cfg.nodes if any(call_name(c) == callee for c in n.calls())]
+        if what is None:
+            # the rescue query is conditional by design (not scheduled at or after expiry): it must be REACHABLE
+            obs.append(ob(R, f, f'{callee}(...)', 'a rescue query that is due before expiry is put on the heap', bool(hits)))
+            continue
+        skip = cfg.path_avoiding(cfg.entry, lambda n: n is cfg.exit, lambda n: n in hits) if hits else [cfg.entry]
+        obs.append(ob(R, f, f'{callee}(...)', what + ' -- on every path', bool(hits) and skip is None, '' if hits else f'no call of {callee} is left in {f.name}'))
+    st = base.methods['_async_start']
+    al = [c for c in walk_local_ordered(st.node) if isinstance(c, ast.Call) and call_name(c) == 'async_add_listener']
+    okq = False
+    if al and len(al[0].args) == 2 and isinstance(al[0].args[1], (ast.ListComp, ast.List)):
+        qc = [c for c in ast.walk(al[0].args[1]) if isinstance(c, ast.Call) and call_name(c) == 'DNSQuestion']
+        okq = len(qc) == 1 and len(qc[0].args) == 3 and prog.try_fold(st.module, qc[0].args[1]) == (True, 12) and prog.try_fold(st.module, qc[0].args[2]) == (True, 1) and any(isinstance(g_.iter, ast.Attribute) and g_.iter.attr == 'types' for c_ in ast.walk(al[0].args[1]) if isinstance(c_, ast.ListComp) for g_ in c_.generators)
+    obs.append(ob(R, st, al[0] if al else 'self.zc.async_add_listener(self, [...])', 'the browser listens with one PTR / IN question per browsed type', okq))
     return obs
 
 
@@ -402,6 +434,62 @@ def const(ctx: Any) -> List[Ob]:
     inc = [n for n in cfg.nodes if n.kind == 'stmt' and isinstance(n.ast, ast.AugAssign) and self_attr(n.ast.target, me) == '_startup_queries_sent']
     later_nodes = [n for n in cfg.nodes if any(c is later[0] for c in n.calls())] if later else []
     obs.append(ob(R, su, 'self._startup_queries_sent += 1', 'the counter is incremented before the delay is computed', bool(inc) and all(cfg.dominated_by_any(n, inc) for n in later_nodes)))
+    step_ok = len(inc) == 1 and isinstance(inc[0].ast.op, ast.Add) and prog.try_fold(su.module, inc[0].ast.value) == (True, 1)
+    sends_su = [n for n in cfg.nodes if any(call_name(c) == 'async_send_ready_queries' for c in n.calls())]
+    once = len(sends_su) == 1 and not sends_su[0].in_loop and all(cfg.dominated_by_any(i_, sends_su) for i_ in inc)
+    obs.append(ob(R, su, inc[0].ast if inc else 'self._startup_queries_sent += 1', 'each run of the start-up callback sends one query and counts it once (four runs make the four start-up queries)', step_ok and once))
+    # every wake-up of the refresh processing is `now + the configured delay` (milliseconds, converted once): both places that arm it
+    rp = qs.methods['_process_ready_types']
+    for fn_ in (su, rp):
+        fme = fn_.params[0]
+        env_a: Dict[str, Any] = {}
+        for s_ in walk_local_ordered(fn_.node):
+            if isinstance(s_, ast.Assign) and isinstance(s_.targets[0], ast.Name):
+                try:
+                    env_a[s_.targets[0].id] = lf.poly(prog, fn_.module, s_.value, lambda x: ('NOW' if isinstance(x, ast.Call) and call_name(x) == 'current_time_millis' else ('DELAY' if self_attr(x, fme) == '_min_time_between_queries_millis' else ('RES' if self_attr(x, fme) == '_clock_resolution_millis' else None))), env_a)
+                except lf.NotLinear:
+                    pass
+        for c in walk_local_ordered(fn_.node):
+            if isinstance(c, ast.Call) and call_name(c) == 'call_at' and len(c.args) >= 2 and self_attr(c.args[1], fme) == '_process_ready_types':
+                t_arg = c.args[0]
+                inner = t_arg.args[0] if isinstance(t_arg, ast.Call) and call_name(t_arg) == 'millis_to_seconds' and t_arg.args else None
+                ok_a, why_a = False, 'the deadline is not millis_to_seconds(<milliseconds>)'
+                if inner is not None:
+                    try:
+                        p_ = lf.poly(prog, fn_.module, inner, lambda x: ('DELAY' if self_attr(x, fme) == '_min_time_between_queries_millis' else None), env_a)
+                        ok_a = p_ == lf.parse_poly('NOW + DELAY')
+                        why_a = lf.p_str(p_)
+                    except lf.NotLinear as e:
+                        why_a = str(e)
+                obs.append(ob(R, fn_, c, 'the refresh processing is woken one configured delay from now', ok_a, why_a))
+    # what is due: an entry is taken from the heap iff its time is not later than now + the clock resolution; the first entry
+    # that is later ends the scan (the heap is ordered); a query is sent iff something was due
+    rcfg = cfg_of(rp.node)
+    rme = rp.params[0]
+    atoms_base = {k: False for k in done_atoms(ctx, rp)}
+
+    def eff_due(node: Any, evl: Any) -> List[Any]:
+        out = ['POP' for c in fd.node_calls(node, evl) if call_name(c) == 'heappop']
+        out += ['SEND' for c in fd.node_calls(node, evl) if call_name(c) == 'async_send_ready_queries']
+        return out
+
+    for delta, due in ((-5.0, True), (0.0, True), (1.0, True), (1.5, False), (5000.0, False)):
+        atoms_d = dict(atoms_base)
+        atoms_d.update({f'{rme}._query_heap': ['q'], '.cancelled': False, 'current_time_millis()': 100000.0, f'{rme}._clock_resolution_millis': 1.0, '.when_millis': 100000.0 + delta})
+        oc_d, und_d = traces(ctx, rp, atoms_d, eff_due, loop_bound=1, for_iter=lambda n, e: False)
+        got_d = {('POP' in t) for t in oc_d}
+        obs.append(ob(R, rp, f'heap top {delta:+g} ms from now (clock resolution 1 ms)', f'the entry is {"taken from the heap" if due else "left on the heap"}', got_d == {due}, f'taken on the feasible paths: {sorted(got_d)}'))
+    ready_names = {norm(c.args[2]) for c in walk_local_ordered(rp.node) if isinstance(c, ast.Call) and call_name(c) == 'async_send_ready_queries' and len(c.args) >= 3}
+    send_nodes = [n for n in rcfg.nodes if any(call_name(c) == 'async_send_ready_queries' for c in n.calls())]
+    gate_ok = bool(send_nodes) and bool(ready_names)
+    for sn in send_nodes:
+        tests_r = [t for t in rcfg.nodes if t.kind == 'test' and t.ast is not None and norm(t.ast) in ready_names]
+        neg_r = [t for t in rcfg.nodes if t.kind == 'test' and isinstance(t.ast, ast.UnaryOp) and isinstance(t.ast.op, ast.Not) and norm(t.ast.operand) in ready_names]
+        if not (any(rcfg.only_through_edge(t, True, sn) for t in tests_r) or any(rcfg.only_through_edge(t, False, sn) for t in neg_r)):
+            gate_ok = False
+    skip_send = rcfg.path_avoiding(rcfg.entry, lambda n: n is rcfg.exit, lambda n: n in send_nodes or any(n is t for t in rcfg.nodes if t.kind == 'test' and t.ast is not None and (norm(t.ast) in ready_names or (isinstance(t.ast, ast.UnaryOp) and norm(t.ast.operand) in ready_names)))) if send_nodes else [rcfg.entry]
+    live_skip = skip_send is not None and not any(n.kind == 'return' and n.line and 'done' in ' '.join(norm(x) for x in [p_.ast for p_, _ in n.pred if p_.ast is not None]) for n in (skip_send or []))
+    obs.append(ob(R, rp, send_nodes[0].ast if send_nodes else 'self.async_send_ready_queries(False, now_millis, ready_types)', 'a refresh query is sent exactly when some entry was due (the set of due types is not empty)', gate_ok, '' if gate_ok else 'the send is not guarded by the non-emptiness of the set of due types'))
     # switch to refresh processing after STARTUP_QUERIES
     tests = [n for n in cfg.nodes if n.kind == 'test' and 'STARTUP_QUERIES' in norm(n.ast)]
     ok_sw = False
